@@ -5,12 +5,14 @@ cd "$(dirname "$0")"
 export CARGO_NET_OFFLINE=true
 mkdir -p work evidence
 python3-vt - <<'PY'
-import sys
-sys.path.insert(0, "/verif/py")
+import sys, os
+sys.path.insert(0, os.path.join(os.getcwd(), "py"))
 from vlib import vgen, stage2, util
 vgen.build()
 s2 = stage2.Stage2("SETUP", "warm", nshards=1)
 s2.add_case("w", "pub struct W;", "pub fn dispatch(_t: &str, _o: &str, _i: &::serde_json::Value) -> ::serde_json::Value { ::vrt::unknown_op() }\n")
 s2.build()
+from props import c15
+c15.warm()
 print("setup ok")
 PY
